@@ -26,7 +26,12 @@ def main():
     if pid not in MODULES:
         print(f"unknown property {pid}")
         return 2
-    mod = importlib.import_module(f"pgverif.{MODULES[pid]}")
+    try:
+        mod = importlib.import_module(f"pgverif.{MODULES[pid]}")
+    except Exception:
+        traceback.print_exc()
+        print(f"MACHINERY-FAILURE property={pid}: check module cannot be loaded")
+        return 2
     rep = Report(pid, a.tier)
     try:
         if a.replay:
